@@ -103,6 +103,134 @@ theorem utf8Cp_lt (c : Nat) (hc : c < 0x110000) : ∀ b ∈ utf8Cp c, b < 256 :=
       · simp at hb; omega
       · simp at hb; omega
 
+/-! ### the independent §3.6 specification (`Spec.unreserved`, `Spec.hexDigit`, `Spec.PctEncoded`) -/
+
+theorem unreserved_lt (b : Nat) (h : unreserved b = true) : b < 128 := by
+  have hall : unreservedSet.all (fun x => decide (x < 128)) = true := by decide
+  have hm : b ∈ unreservedSet := by
+    unfold unreserved at h
+    exact List.contains_iff_mem.mp h
+  simpa using List.all_eq_true.mp hall b hm
+
+set_option maxRecDepth 20000 in
+/-- the range test of the code (`_ALWAYS_SAFE` + `~`) is the literal RFC 3986 list -/
+theorem isUnreserved_eq_spec (b : Nat) : isUnreserved b = unreserved b := by
+  by_cases hb : b < 128
+  · have hfin : ∀ b < 128, isUnreserved b = unreserved b := by decide
+    exact hfin b hb
+  · have h1 : unreserved b = false := by
+      cases h : unreserved b with
+      | false => rfl
+      | true => exact absurd (unreserved_lt b h) hb
+    rw [h1]
+    unfold isUnreserved
+    simp
+    omega
+
+theorem hexUp_eq_spec (n : Nat) : hexUp n = hexDigit n := by
+  unfold hexUp hexDigit
+  split <;> omega
+
+theorem pctByte_eq_spec (b : Nat) : pctByte b = pctEncodeOctet b := by
+  unfold pctByte pctEncodeOctet
+  rw [isUnreserved_eq_spec, hexUp_eq_spec, hexUp_eq_spec]
+  rfl
+
+theorem hexVal_hexDigit (n : Nat) (h : n < 16) : hexVal (hexDigit n) = some n := by
+  have hfin : ∀ n < 16, hexVal (hexDigit n) = some n := by decide
+  exact hfin n h
+
+theorem indexIn_inj (a b : Nat) : ∀ (l : List Nat) (i : Nat), indexIn a l = some i → indexIn b l = some i → a = b
+  | [], _, h, _ => by simp [indexIn] at h
+  | x :: xs, i, ha, hb => by
+    unfold indexIn at ha hb
+    by_cases h1 : x = a
+    · by_cases h2 : x = b
+      · exact h1.symm.trans h2
+      · rw [if_pos h1] at ha; rw [if_neg h2] at hb
+        cases hj : indexIn b xs with
+        | none => rw [hj] at hb; simp at hb
+        | some j => rw [hj] at hb; simp at hb ha; omega
+    · by_cases h2 : x = b
+      · rw [if_neg h1] at ha; rw [if_pos h2] at hb
+        cases hj : indexIn a xs with
+        | none => rw [hj] at ha; simp at ha
+        | some j => rw [hj] at ha; simp at hb ha; omega
+      · rw [if_neg h1] at ha; rw [if_neg h2] at hb
+        cases hi : indexIn a xs with
+        | none => rw [hi] at ha; simp at ha
+        | some i' =>
+          cases hj : indexIn b xs with
+          | none => rw [hj] at hb; simp at hb
+          | some j' =>
+            rw [hi] at ha; rw [hj] at hb
+            simp at ha hb
+            exact indexIn_inj a b xs i' hi (by rw [hj]; congr 1; omega)
+
+theorem pctEncodeOctets_conforms (bs : Bytes) (h : ∀ b ∈ bs, b < 256) : PctEncoded bs (pctEncodeOctets bs) := by
+  induction bs with
+  | nil => exact .nil
+  | cons b bs ih =>
+    have ih' := ih (fun x hx => h x (by simp [hx]))
+    have hb := h b (by simp)
+    unfold pctEncodeOctets at ih' ⊢
+    rw [List.flatMap_cons]
+    by_cases hu : unreserved b = true
+    · have e : pctEncodeOctet b = [b] := by simp [pctEncodeOctet, hu]
+      rw [e]
+      exact .keep b bs _ hu ih'
+    · have hu' : unreserved b = false := by simpa using hu
+      have e : pctEncodeOctet b = [37, hexDigit (b / 16), hexDigit (b % 16)] := by simp [pctEncodeOctet, hu']
+      rw [e]
+      exact .esc b _ _ bs _ hu' hb (hexVal_hexDigit _ (by omega)) (hexVal_hexDigit _ (by omega)) ih'
+
+/-- §3.6 determines the encoded text: two texts that both conform for the same octets are equal -/
+theorem PctEncoded_unique {bs o1 o2 : Bytes} (h1 : PctEncoded bs o1) (h2 : PctEncoded bs o2) : o1 = o2 := by
+  induction h1 generalizing o2 with
+  | nil => cases h2; rfl
+  | keep b bs out hu _ ih =>
+    cases h2 with
+    | keep _ _ out2 _ h2' => rw [ih h2']
+    | esc _ hi lo _ out2 hu2 _ _ _ _ => rw [hu] at hu2; cases hu2
+  | esc b hi lo bs out hu hb hhi hlo _ ih =>
+    cases h2 with
+    | keep _ _ out2 hu2 _ => rw [hu] at hu2; cases hu2
+    | esc _ hi2 lo2 _ out2 _ _ hhi2 hlo2 h2' =>
+      rw [ih h2', indexIn_inj hi hi2 hexDigits _ hhi hhi2, indexIn_inj lo lo2 hexDigits _ hlo hlo2]
+
+/-- and the encoded text determines the octets (it decodes back to them and to nothing else) -/
+theorem PctEncoded_decode_unique {b1 b2 out : Bytes} (h1 : PctEncoded b1 out) (h2 : PctEncoded b2 out) : b1 = b2 := by
+  have h37 : unreserved 37 = false := by decide
+  induction h1 generalizing b2 with
+  | nil => cases h2; rfl
+  | keep b bs out hu _ ih =>
+    cases h2 with
+    | keep _ bs2 _ _ h2' => rw [ih h2']
+    | esc b' _ _ bs2 _ _ _ _ _ _ => rw [h37] at hu; cases hu
+  | esc b hi lo bs out hu hb hhi hlo _ ih =>
+    cases h2 with
+    | keep _ bs2 _ hu2 _ => rw [h37] at hu2; cases hu2
+    | esc b' _ _ bs2 _ _ hb' hhi2 hlo2 h2' =>
+      rw [hhi] at hhi2; rw [hlo] at hlo2
+      simp only [Option.some.injEq] at hhi2 hlo2
+      have : b = b' := by omega
+      rw [ih h2', this]
+
+/-! ### URL text = scheme "://" authority path -/
+
+theorem takeUntil_stop (p : Nat → Bool) (c : Nat) (r : Str) (hc : p c = true) : ∀ (a : Str),
+    (∀ x ∈ a, p x = false) → takeUntil p (a ++ c :: r) = (a, c :: r)
+  | [], _ => by simp [takeUntil, hc]
+  | x :: a, h => by
+    have hx : p x = false := h x (by simp)
+    simp [takeUntil, hx, takeUntil_stop p c r hc a (fun y hy => h y (by simp [hy]))]
+
+theorem takeUntil_all (p : Nat → Bool) : ∀ (a : Str), (∀ x ∈ a, p x = false) → takeUntil p a = (a, [])
+  | [], _ => rfl
+  | x :: a, h => by
+    have hx : p x = false := h x (by simp)
+    simp [takeUntil, hx, takeUntil_all p a (fun y hy => h y (by simp [hy]))]
+
 /-! ### authority = host [: port] -/
 
 theorem stripSuffix_none_of_not_mem (d l : Str) (h : cColon ∉ l) : stripSuffix? (cColon :: d) l = none := by
